@@ -1677,6 +1677,13 @@ def r_monitor(ctx):
                     if pol and atom[0] == 'cmp' and atom[1] == '==' and atom[2] == ('v', 'current_state', 'P') and atom[3] == ('c', 0):
                         guards.append(g.conds[-1][2])
             ok = any(gid in dom[nd.id] for gid in guards)
+            if not ok:
+                # the division sits under a test that current_state == 0 fails
+                from ..finite import feval, UNKNOWN
+                for atom, pol in ctx.conds(f, nd):
+                    v_ = feval(atom, lambda x: 0 if x == ('v', 'current_state', 'P') else UNKNOWN)
+                    if v_ is not UNKNOWN and bool(v_) != pol:
+                        ok = True
             run.check(ok, 'R-VERB', f, 'monitor:division-by-current_state-guarded', nd.lineno,
                       'the division by current_state is dominated by the early return on current_state == 0',
                       "Monitor.__call__ divides by current_state without a dominating `current_state == 0` early return: "
